@@ -100,6 +100,20 @@ claim('C05',
       'line, vectors and suffix sections of the writer (fmt / C++ templates); the reader side of those is C14.',
       'DESIGN.md 4 C05')
 
+claim('C03',
+      'Two lemmas. (1) Binary numeric constants: the real BinaryFormatter::nput, the real variadic BinaryFormatter::apr (for the '
+      'three formats nput uses) and the real NLReader::ReadConstant with BinaryReader::{ReadInt<short|int|long>, ReadDouble, Read} '
+      'are chained over one fully symbolic double: every double is read back with the identical value, bit-identical apart '
+      'from the sign of zero, NaN as NaN, and the reader consumes exactly the bytes written. (2) Opcode tables: for every '
+      'constant of nl-opcodes.h (read on each run) the reader\'s OpCodeInfo/ExprInfo tables map the code to a kind with the '
+      'same NL opcode and the same name. Both are loop-free after unwinding constant loops: complete proofs by plain CBMC '
+      'assertions over the real bodies.',
+      'Trusted: CBMC (incl. its va_arg model), extractor, little-endian host, fwrite as a ghost byte buffer. Not decided: '
+      'shortest-round-trip decimal text output (dtoa/g_fmt), header layout, segment order, suffixes, names, whole-model '
+      'text = binary equivalence. The claim is restricted to the two lemmas.',
+      'DESIGN.md 4 C03',
+      technique='contract-style assertions over the real extracted bodies, discharged by CBMC 6.11 for all inputs (loop-free: complete); no DFCC because of varargs')
+
 for pid, reason in [
     ('C01', 'relational whole-pipeline equivalence across ~12k lines of CRTP templates; no function boundary carries it and the code is outside the mechanically extractable C subset (DESIGN.md 5)'),
     ('C09', 'whole-process behaviour (exit status, files, exception propagation through try/catch) - not expressible as function contracts here (DESIGN.md 5)'),
